@@ -166,4 +166,546 @@ theorem skipWs_idem (s : Bytes) : skipWs (skipWs s) = skipWs s := by
   rw [skipWs_eq, skipWs_eq]
   exact skipWsScalarAux_idem s false
 
+
+theorem take3_eq {r : Bytes} {a b c : UInt8} (h : r.take 3 = [a, b, c]) : r = a :: b :: c :: r.drop 3 := by
+  have := List.take_append_drop 3 r
+  rw [h] at this
+  exact this.symm
+
+theorem take2_eq {r : Bytes} {a b : UInt8} (h : r.take 2 = [a, b]) : r = a :: b :: r.drop 2 := by
+  have := List.take_append_drop 2 r
+  rw [h] at this
+  exact this.symm
+
+theorem tbContent_cons (f : Nat) (acc : Bytes) (esc : Bool) (c : UInt8) (r : Bytes) :
+    tbContent (f + 1) acc esc (c :: r) =
+      if c = 0x5C ∧ r.take 3 = [0x22, 0x22, 0x22] then
+        tbContent f (0x22 :: 0x22 :: 0x22 :: 0x5C :: acc) true (r.drop 3)
+      else if c = 0x22 ∧ r.take 2 = [0x22, 0x22] then some (acc.reverse, esc, true, r.drop 2)
+      else if c = 0x0A then some (acc.reverse, esc, false, r)
+      else tbContent f (c :: acc) esc r := by
+  rw [tbContent.eq_def]
+  simp only []
+  split
+  · simp
+  · simp
+  · simp
+  · rename_i h1 h2 h3
+    rw [if_neg (fun h => h2 _ h.1 (take3_eq h.2)), if_neg (fun h => h3 _ h.1 (take2_eq h.2)), if_neg h1]
+
+theorem tbContent_zero (acc : Bytes) (esc : Bool) (s : Bytes) : tbContent 0 acc esc s = none := by
+  rw [tbContent]
+
+theorem tbContent_nil (f : Nat) (acc : Bytes) (esc : Bool) : tbContent f acc esc [] = none := by
+  cases f <;> rw [tbContent]
+
+/-- a successful content scan consumes at least one byte -/
+theorem tbContent_length_lt : ∀ (f : Nat) (acc : Bytes) (esc : Bool) (s : Bytes) (c : Bytes) (e t : Bool) (rest : Bytes),
+    tbContent f acc esc s = some (c, e, t, rest) → rest.length < s.length := by
+  intro f
+  induction f with
+  | zero => intro acc esc s c e t rest h; rw [tbContent_zero] at h; cases h
+  | succ f ih =>
+    intro acc esc s c e t rest h
+    cases s with
+    | nil => rw [tbContent_nil] at h; cases h
+    | cons a s =>
+      rw [tbContent_cons] at h
+      simp only [List.length_cons]
+      split at h
+      · have := ih _ _ _ _ _ _ _ h
+        simp only [List.length_drop] at this; omega
+      · split at h
+        · cases h; simp only [List.length_drop]; omega
+        · split at h
+          · cases h; omega
+          · have := ih _ _ _ _ _ _ _ h
+            omega
+
+theorem tbContent_fuel : ∀ (f f' : Nat) (acc : Bytes) (esc : Bool) (s : Bytes),
+    s.length < f → s.length < f' → tbContent f acc esc s = tbContent f' acc esc s := by
+  intro f
+  induction f with
+  | zero => intro f' acc esc s h; omega
+  | succ f ih =>
+    intro f' acc esc s h h'
+    cases f' with
+    | zero => omega
+    | succ f' =>
+      cases s with
+      | nil => rw [tbContent_nil, tbContent_nil]
+      | cons a s =>
+        simp only [List.length_cons] at h h'
+        rw [tbContent_cons, tbContent_cons]
+        rw [ih f' _ true (s.drop 3) (by simp only [List.length_drop]; omega) (by simp only [List.length_drop]; omega)]
+        rw [ih f' (a :: acc) esc s (by omega) (by omega)]
+
+theorem tbContent_cut : ∀ (f : Nat) (acc : Bytes) (esc : Bool) (u r : Bytes) (c : Bytes) (e t : Bool) (rest : Bytes),
+    tbContent f acc esc (u ++ r) = some (c, e, t, rest) → r.length ≤ rest.length →
+    ∃ u', rest = u' ++ r ∧ tbContent f acc esc u = some (c, e, t, u') := by
+  intro f
+  induction f with
+  | zero => intro acc esc u r c e t rest h; rw [tbContent_zero] at h; cases h
+  | succ f ih =>
+    intro acc esc u r c e t rest h hl
+    cases u with
+    | nil =>
+      have := tbContent_length_lt _ _ _ _ _ _ _ _ h
+      simp only [List.nil_append] at this
+      omega
+    | cons a u =>
+      rw [List.cons_append, tbContent_cons] at h
+      rw [tbContent_cons]
+      by_cases h1 : a = 0x5C ∧ (u ++ r).take 3 = [0x22, 0x22, 0x22]
+      · rw [if_pos h1] at h
+        have hlt := tbContent_length_lt _ _ _ _ _ _ _ _ h
+        simp only [List.length_drop, List.length_append] at hlt
+        have hu : 3 ≤ u.length := by omega
+        rw [List.take_append_of_le_length hu] at h1
+        rw [List.drop_append_of_le_length hu] at h
+        rw [if_pos h1]
+        exact ih _ _ _ _ _ _ _ _ h hl
+      · rw [if_neg h1] at h
+        have h1' : ¬ (a = 0x5C ∧ u.take 3 = [0x22, 0x22, 0x22]) := by
+          intro hh
+          apply h1
+          refine ⟨hh.1, ?_⟩
+          have hu : 3 ≤ u.length := by
+            have := congrArg List.length hh.2
+            simp only [List.length_take, List.length_cons, List.length_nil] at this
+            omega
+          rw [List.take_append_of_le_length hu]; exact hh.2
+        rw [if_neg h1']
+        by_cases h2 : a = 0x22 ∧ (u ++ r).take 2 = [0x22, 0x22]
+        · rw [if_pos h2] at h
+          simp only [Option.some.injEq, Prod.mk.injEq] at h
+          obtain ⟨hc, he, ht, hr⟩ := h
+          have hu : 2 ≤ u.length := by
+            rw [← hr] at hl
+            simp only [List.length_drop, List.length_append] at hl
+            have := congrArg List.length h2.2
+            simp only [List.length_take, List.length_append, List.length_cons, List.length_nil] at this
+            omega
+          rw [List.take_append_of_le_length hu] at h2
+          rw [List.drop_append_of_le_length hu] at hr
+          rw [if_pos h2]
+          exact ⟨u.drop 2, hr.symm, by rw [hc, he, ht]⟩
+        · rw [if_neg h2] at h
+          have h2' : ¬ (a = 0x22 ∧ u.take 2 = [0x22, 0x22]) := by
+            intro hh
+            apply h2
+            refine ⟨hh.1, ?_⟩
+            have hu : 2 ≤ u.length := by
+              have := congrArg List.length hh.2
+              simp only [List.length_take, List.length_cons, List.length_nil] at this
+              omega
+            rw [List.take_append_of_le_length hu]; exact hh.2
+          rw [if_neg h2']
+          by_cases h3 : a = 0x0A
+          · rw [if_pos h3] at h ⊢
+            simp only [Option.some.injEq, Prod.mk.injEq] at h
+            obtain ⟨hc, he, ht, hr⟩ := h
+            exact ⟨u, hr.symm, by rw [hc, he, ht]⟩
+          · rw [if_neg h3] at h ⊢
+            exact ih _ _ _ _ _ _ _ _ h hl
+
+/-! ## one line, all lines -/
+
+theorem tbLine_length_lt (s : Bytes) (ln : TbLine) (rest : Bytes) (h : tbLine s = some (ln, rest)) :
+    rest.length < s.length := by
+  unfold tbLine at h
+  simp only [] at h
+  have hd := dropWhile_length_le isBlank s
+  cases hc : tbContent ((s.dropWhile isBlank).length + 1) [] false (s.dropWhile isBlank) with
+  | none => rw [hc] at h; cases h
+  | some x =>
+    obtain ⟨c, e, t, rest'⟩ := x
+    rw [hc] at h
+    simp only [Option.some.injEq, Prod.mk.injEq] at h
+    have := tbContent_length_lt _ _ _ _ _ _ _ _ hc
+    rw [← h.2]; omega
+
+theorem tbLine_cut (u r : Bytes) (ln : TbLine) (rest : Bytes) (h : tbLine (u ++ r) = some (ln, rest))
+    (hl : r.length ≤ rest.length) : ∃ u', rest = u' ++ r ∧ tbLine u = some (ln, u') := by
+  unfold tbLine at h ⊢
+  simp only [] at h ⊢
+  cases hb : u.dropWhile isBlank with
+  | nil =>
+    rw [dropWhile_append_of_nil _ _ _ hb] at h
+    have hd := dropWhile_length_le isBlank r
+    cases hc : tbContent ((r.dropWhile isBlank).length + 1) [] false (r.dropWhile isBlank) with
+    | none => rw [hc] at h; cases h
+    | some x =>
+      obtain ⟨c, e, t, rest'⟩ := x
+      rw [hc] at h
+      simp only [Option.some.injEq, Prod.mk.injEq] at h
+      have := tbContent_length_lt _ _ _ _ _ _ _ _ hc
+      rw [← h.2] at hl; omega
+  | cons d ds =>
+    have hne : u.dropWhile isBlank ≠ [] := by rw [hb]; exact List.cons_ne_nil _ _
+    have hsplit := dropWhile_append_of_ne_nil isBlank u r hne
+    rw [hsplit.1, hsplit.2, hb] at h
+    cases hc : tbContent ((d :: ds ++ r).length + 1) [] false (d :: ds ++ r) with
+    | none => rw [hc] at h; cases h
+    | some x =>
+      obtain ⟨c, e, t, rest'⟩ := x
+      rw [hc] at h
+      simp only [Option.some.injEq, Prod.mk.injEq] at h
+      obtain ⟨hln, hr⟩ := h
+      rw [← hr] at hl
+      obtain ⟨u', hu', hsmall⟩ := tbContent_cut _ _ _ _ _ _ _ _ _ hc hl
+      rw [tbContent_fuel _ ((d :: ds).length + 1) _ _ _ (by simp only [List.length_append]; omega) (by omega)] at hsmall
+      rw [hsmall]
+      exact ⟨u', by rw [← hr, hu'], by simp only [Option.some.injEq, Prod.mk.injEq]; exact ⟨hln, trivial⟩⟩
+
+theorem tbLines_zero (s : Bytes) (acc : List TbLine) : tbLines 0 s acc = .error .missingCloser := by
+  rw [tbLines]
+
+theorem tbLines_succ (f : Nat) (s : Bytes) (acc : List TbLine) :
+    tbLines (f + 1) s acc =
+      if s.isEmpty then .error .missingCloser
+      else match tbLine s with
+        | none => .error (.eofInLine s)
+        | some (ln, rest) =>
+          if ln.terminal then .ok ((ln :: acc).reverse, rest) else tbLines f rest (ln :: acc) := by
+  rw [tbLines]
+  rfl
+
+theorem tbLines_ok_length (f : Nat) (s : Bytes) (acc : List TbLine) (lines : List TbLine) (rest : Bytes)
+    (h : tbLines f s acc = .ok (lines, rest)) : rest.length ≤ s.length := by
+  have := tbLines_length f s acc
+  rw [h] at this
+  exact this
+
+theorem tbLines_fuel : ∀ (f f' : Nat) (s : Bytes) (acc : List TbLine),
+    s.length ≤ f → s.length ≤ f' → tbLines f s acc = tbLines f' s acc := by
+  intro f
+  induction f with
+  | zero =>
+    intro f' s acc h h'
+    have hs : s = [] := List.eq_nil_of_length_eq_zero (by omega)
+    subst hs
+    cases f' with
+    | zero => rfl
+    | succ f' => rw [tbLines_zero, tbLines_succ]; rfl
+  | succ f ih =>
+    intro f' s acc h h'
+    cases f' with
+    | zero =>
+      have hs : s = [] := List.eq_nil_of_length_eq_zero (by omega)
+      subst hs
+      rw [tbLines_zero, tbLines_succ]; rfl
+    | succ f' =>
+      rw [tbLines_succ, tbLines_succ]
+      cases hl : tbLine s with
+      | none => rfl
+      | some x =>
+        obtain ⟨ln, rest⟩ := x
+        have := tbLine_length_lt _ _ _ hl
+        simp only []
+        rw [ih f' rest (ln :: acc) (by omega) (by omega)]
+
+theorem tbLines_cut : ∀ (f : Nat) (u r : Bytes) (acc lines : List TbLine) (rest : Bytes),
+    tbLines f (u ++ r) acc = .ok (lines, rest) → r.length ≤ rest.length →
+    ∃ u', rest = u' ++ r ∧ tbLines f u acc = .ok (lines, u') := by
+  intro f
+  induction f with
+  | zero => intro u r acc lines rest h; rw [tbLines_zero] at h; cases h
+  | succ f ih =>
+    intro u r acc lines rest h hl
+    rw [tbLines_succ] at h
+    cases he : (u ++ r).isEmpty with
+    | true => rw [he] at h; simp only [if_true] at h; cases h
+    | false =>
+      rw [he] at h
+      simp only [Bool.false_eq_true, if_false] at h
+      cases hln : tbLine (u ++ r) with
+      | none => rw [hln] at h; cases h
+      | some x =>
+        obtain ⟨ln, rest1⟩ := x
+        rw [hln] at h
+        simp only [] at h
+        have hlt := tbLine_length_lt _ _ _ hln
+        have hl1 : r.length ≤ rest1.length := by
+          cases ht : ln.terminal with
+          | true =>
+            rw [ht] at h; simp only [if_true] at h
+            simp only [Except.ok.injEq, Prod.mk.injEq] at h
+            rw [h.2]; exact hl
+          | false =>
+            rw [ht] at h; simp only [Bool.false_eq_true, if_false] at h
+            have := tbLines_ok_length _ _ _ _ _ h
+            omega
+        obtain ⟨u1, hu1, hsmall⟩ := tbLine_cut u r ln rest1 hln hl1
+        have hune : u.isEmpty = false := by
+          cases u with
+          | nil =>
+            rw [hu1] at hlt
+            simp only [List.nil_append, List.length_append] at hlt
+            omega
+          | cons a u => rfl
+        rw [tbLines_succ, hune, hsmall]
+        simp only [Bool.false_eq_true, if_false]
+        cases ht : ln.terminal with
+        | true =>
+          rw [ht] at h; simp only [if_true] at h ⊢
+          simp only [Except.ok.injEq, Prod.mk.injEq] at h
+          exact ⟨u1, by rw [← h.2, hu1], by rw [h.1]⟩
+        | false =>
+          rw [ht] at h; simp only [Bool.false_eq_true, if_false] at h ⊢
+          rw [hu1] at h
+          exact ih _ _ _ _ _ h hl
+
+theorem readTextBlockBody_cut (u r : Bytes) (text rest : Bytes)
+    (h : readTextBlockBody (u ++ r) = .ok (text, rest)) (hl : r.length ≤ rest.length) :
+    ∃ u', rest = u' ++ r ∧ readTextBlockBody u = .ok (text, u') := by
+  unfold readTextBlockBody at h ⊢
+  cases hb : tbLines ((u ++ r).length + 2) (u ++ r) [] with
+  | error e => rw [hb] at h; cases h
+  | ok x =>
+    obtain ⟨lines, rest'⟩ := x
+    rw [hb] at h
+    simp only [Except.ok.injEq, Prod.mk.injEq] at h
+    obtain ⟨htx, hr⟩ := h
+    subst hr
+    obtain ⟨u', hu', hsmall⟩ := tbLines_cut _ _ _ _ _ _ hb hl
+    rw [tbLines_fuel _ (u.length + 2) _ _ (by simp only [List.length_append]; omega) (by omega)] at hsmall
+    rw [hsmall]
+    exact ⟨u', hu', by simp only [Except.ok.injEq, Prod.mk.injEq]; exact ⟨htx, trivial⟩⟩
+
+theorem readTextBlockBody_ok_length (s text rest : Bytes) (h : readTextBlockBody s = .ok (text, rest)) :
+    rest.length ≤ s.length := by
+  unfold readTextBlockBody at h
+  cases hb : tbLines (s.length + 2) s [] with
+  | error e => rw [hb] at h; cases h
+  | ok x =>
+    obtain ⟨lines, rest'⟩ := x
+    rw [hb] at h
+    simp only [Except.ok.injEq, Prod.mk.injEq] at h
+    rw [← h.2]
+    exact tbLines_ok_length _ _ _ _ _ hb
+
+/-! ## closing quote -/
+
+theorem findQuoteScalarAux_cut : ∀ (u : Bytes) (sk bs : Bool) (r q : Bytes) (e : Bool),
+    findQuoteScalarAux sk bs (u ++ r) = some (q, e) → r.length < q.length →
+    ∃ q', q = q' ++ r ∧ findQuoteScalarAux sk bs u = some (q', e) := by
+  intro u
+  induction u with
+  | nil =>
+    intro sk bs r q e h hl
+    have := (findQuoteScalarAux_length _ _ _ _ _ h).1
+    simp only [List.nil_append] at this
+    omega
+  | cons c cs ih =>
+    intro sk bs r q e h hl
+    rw [List.cons_append] at h
+    cases sk with
+    | true =>
+      rw [findQuoteScalarAux] at h ⊢
+      exact ih _ _ _ _ _ h hl
+    | false =>
+      rw [findQuoteScalarAux] at h ⊢
+      split
+      · rename_i hc; rw [if_pos hc] at h; exact ih _ _ _ _ _ h hl
+      · rename_i hc
+        rw [if_neg hc] at h
+        split
+        · rename_i hq
+          rw [if_pos hq] at h
+          simp only [Option.some.injEq, Prod.mk.injEq] at h
+          exact ⟨c :: cs, by rw [← h.1]; rfl, by rw [h.2]⟩
+        · rename_i hq; rw [if_neg hq] at h; exact ih _ _ _ _ _ h hl
+
+theorem findQuote_cut (u r q : Bytes) (e : Bool) (h : findQuote (u ++ r) = some (q, e)) (hl : r.length < q.length) :
+    ∃ q', q = q' ++ r ∧ findQuote u = some (q', e) := by
+  rw [findQuote_eq] at h ⊢
+  exact findQuoteScalarAux_cut u false false r q e h hl
+
+
+/-! ## the string reader -/
+
+theorem shiftV_str (k a b : Nat) (d : Bytes) (e : Bool) :
+    shiftV k (.str (mkHdr a b) d e) = .str (mkHdr (a + k) (b + k)) d e := by
+  unfold shiftV
+  simp [shiftHdr, Val.setHdr, Val.hdr, mkHdr]
+
+theorem shiftV_float (k a b : Nat) (bits : UInt64) :
+    shiftV k (.float (mkHdr a b) bits) = .float (mkHdr (a + k) (b + k)) bits := by
+  unfold shiftV
+  simp [shiftHdr, Val.setHdr, Val.hdr, mkHdr]
+
+theorem readString_cut (ctx : Ctx) (t r : Bytes) (cl : List Call) (v : Val) (st' : St)
+    (h : readString ctx { rest := t ++ r, calls := cl } = .ok v st') (hl : r.length ≤ st'.rest.length) :
+    ∃ t' v', st' = { rest := t' ++ r, calls := cl } ∧
+      readString ctx { rest := t, calls := cl } = .ok v' { rest := t', calls := cl } ∧ shiftV r.length v' = v := by
+  unfold readString at h ⊢
+  simp only [Ctx.pos] at h ⊢
+  cases hd : (ctx.cfg.exp && startsWith (t ++ r) [0x22, 0x22, 0x22, 0x0A]) with
+  | true =>
+    rw [hd] at h
+    simp only [if_true] at h
+    simp only [Bool.and_eq_true] at hd
+    cases hb : readTextBlockBody ((t ++ r).drop 4) with
+    | error e =>
+      rw [hb] at h
+      cases e <;> cases h
+    | ok x =>
+      obtain ⟨text, rest⟩ := x
+      rw [hb] at h
+      simp only [Res.ok.injEq] at h
+      obtain ⟨hv, hst⟩ := h
+      subst hst
+      simp only [] at hl
+      have hlen4 := startsWith_length hd.2
+      have hrl := readTextBlockBody_ok_length _ _ _ hb
+      simp only [List.length_drop, List.length_append, List.length_cons, List.length_nil] at hlen4 hrl
+      have ht4 : 4 ≤ t.length := by omega
+      rw [List.drop_append_of_le_length ht4] at hb
+      obtain ⟨u', hu', hsmall⟩ := readTextBlockBody_cut _ _ _ _ hb hl
+      have hsw : startsWith t [0x22, 0x22, 0x22, 0x0A] = true := startsWith_append_cut r ht4 hd.2
+      rw [hd.1, hsw, hsmall]
+      simp only [Bool.and_self, if_true]
+      refine ⟨u', _, ?_, rfl, ?_⟩
+      · rw [hu']
+      · rw [shiftV_str, ← hv, hu']
+        simp only [List.length_append]
+  | false =>
+    rw [hd] at h
+    simp only [Bool.false_eq_true, if_false] at h
+    have hd' : (ctx.cfg.exp && startsWith t [0x22, 0x22, 0x22, 0x0A]) = false := by
+      cases hx : ctx.cfg.exp with
+      | false => rfl
+      | true =>
+        rw [hx] at hd
+        simp only [Bool.true_and] at hd ⊢
+        exact startsWith_append_false r hd
+    rw [hd']
+    simp only [Bool.false_eq_true, if_false]
+    cases hq : findQuote (t ++ r).tail with
+    | none => rw [hq] at h; cases h
+    | some x =>
+      obtain ⟨q, esc⟩ := x
+      rw [hq] at h
+      simp only [Res.ok.injEq] at h
+      obtain ⟨hv, hst⟩ := h
+      subst hst
+      simp only [] at hl
+      have hql := findQuote_length _ _ _ hq
+      have hqpos : 0 < q.length := List.length_pos_iff.mpr hql.2
+      simp only [List.length_tail] at hl
+      cases t with
+      | nil =>
+        have := hql.1
+        simp only [List.nil_append, List.length_tail] at this
+        omega
+      | cons c t1 =>
+        simp only [List.cons_append, List.tail_cons] at hq hv ⊢
+        obtain ⟨q', hq', hsmall⟩ := findQuote_cut t1 r q esc hq (by omega)
+        rw [hsmall]
+        simp only []
+        have hq'pos : 0 < q'.length := by
+          rw [hq'] at hl hqpos
+          simp only [List.length_append] at hl hqpos
+          omega
+        have htail : q.tail = q'.tail ++ r := by
+          rw [hq']
+          cases q' with
+          | nil => simp at hq'pos
+          | cons a q'' => rfl
+        refine ⟨q'.tail, _, ?_, rfl, ?_⟩
+        · rw [htail]
+        · rw [shiftV_str, ← hv, htail, hq', slice_append_right]
+          simp only [List.length_append, List.length_cons]
+          congr 2
+          omega
+
+/-! ## symbolic values -/
+
+theorem len_Inf : (strBytes "Inf").length = 3 := by decide +kernel
+theorem len_mInf : (strBytes "-Inf").length = 4 := by decide +kernel
+theorem len_NaN : (strBytes "NaN").length = 3 := by decide +kernel
+
+/-- one alternative of `readSymbolic`: the keyword `kw` of length `k` after the two-byte `##` -/
+theorem symbolic_alt (t r kw : Bytes) (k : Nat) (hk : kw.length = k) (hk0 : 0 < k)
+    (hs : startsWith ((t ++ r).drop 2) kw = true) (hl : r.length ≤ (((t ++ r).drop 2).drop k).length) :
+    startsWith (t.drop 2) kw = true ∧ ((t ++ r).drop 2).drop k = (t.drop 2).drop k ++ r := by
+  have h1 := startsWith_length hs
+  simp only [List.length_drop, List.length_append] at h1 hl
+  have ht : 2 + k ≤ t.length := by omega
+  rw [List.drop_append_of_le_length (by omega)] at hs ⊢
+  refine ⟨startsWith_append_cut r (by simp only [List.length_drop]; omega) hs, ?_⟩
+  rw [List.drop_append_of_le_length (by simp only [List.length_drop]; omega)]
+
+theorem symbolic_neg (t r kw : Bytes) (hk0 : 0 < kw.length)
+    (hs : startsWith ((t ++ r).drop 2) kw = false) : startsWith (t.drop 2) kw = false := by
+  cases hx : startsWith (t.drop 2) kw with
+  | false => rfl
+  | true =>
+    have hlen := startsWith_length hx
+    simp only [List.length_drop] at hlen
+    have := startsWith_append_mono r hx
+    rw [← List.drop_append_of_le_length (by omega), hs] at this
+    cases this
+
+theorem readSymbolic_cut (ctx : Ctx) (t r : Bytes) (cl : List Call) (v : Val) (st' : St)
+    (h : readSymbolic ctx { rest := t ++ r, calls := cl } = .ok v st') (hl : r.length ≤ st'.rest.length) :
+    ∃ t' v', st' = { rest := t' ++ r, calls := cl } ∧
+      readSymbolic ctx { rest := t, calls := cl } = .ok v' { rest := t', calls := cl } ∧ shiftV r.length v' = v := by
+  unfold readSymbolic at h ⊢
+  simp only [Ctx.pos] at h ⊢
+  cases h1 : startsWith ((t ++ r).drop 2) (strBytes "Inf") with
+  | true =>
+    rw [h1] at h
+    simp only [if_true, Res.ok.injEq] at h
+    obtain ⟨hv, hst⟩ := h
+    subst hst
+    simp only [] at hl
+    obtain ⟨hs, hr⟩ := symbolic_alt t r _ 3 len_Inf (by omega) h1 hl
+    rw [hs]
+    simp only [if_true]
+    refine ⟨_, _, ?_, rfl, ?_⟩
+    · rw [hr]
+    · rw [shiftV_float, ← hv, hr]; simp only [List.length_append]
+  | false =>
+    rw [h1] at h
+    simp only [Bool.false_eq_true, if_false] at h
+    rw [symbolic_neg t r _ (by rw [len_Inf]; omega) h1]
+    simp only [Bool.false_eq_true, if_false]
+    cases h2 : startsWith ((t ++ r).drop 2) (strBytes "-Inf") with
+    | true =>
+      rw [h2] at h
+      simp only [if_true, Res.ok.injEq] at h
+      obtain ⟨hv, hst⟩ := h
+      subst hst
+      simp only [] at hl
+      obtain ⟨hs, hr⟩ := symbolic_alt t r _ 4 len_mInf (by omega) h2 hl
+      rw [hs]
+      simp only [if_true]
+      refine ⟨_, _, ?_, rfl, ?_⟩
+      · rw [hr]
+      · rw [shiftV_float, ← hv, hr]; simp only [List.length_append]
+    | false =>
+      rw [h2] at h
+      simp only [Bool.false_eq_true, if_false] at h
+      rw [symbolic_neg t r _ (by rw [len_mInf]; omega) h2]
+      simp only [Bool.false_eq_true, if_false]
+      cases h3 : startsWith ((t ++ r).drop 2) (strBytes "NaN") with
+      | true =>
+        rw [h3] at h
+        simp only [if_true, Res.ok.injEq] at h
+        obtain ⟨hv, hst⟩ := h
+        subst hst
+        simp only [] at hl
+        obtain ⟨hs, hr⟩ := symbolic_alt t r _ 3 len_NaN (by omega) h3 hl
+        rw [hs]
+        simp only [if_true]
+        refine ⟨_, _, ?_, rfl, ?_⟩
+        · rw [hr]
+        · rw [shiftV_float, ← hv, hr]; simp only [List.length_append]
+      | false =>
+        rw [h3] at h
+        simp only [Bool.false_eq_true, if_false] at h
+        cases h
+
 end Edn.Proofs
